@@ -23,6 +23,7 @@ impl Monitor for C07 {
         vec![
             "rejected frames are inserted only where twin A's window is silent (async: one rx_single result per window; nb: the window stays open, A's own frame may follow)".into(),
             "an oversized frame may end the current receive procedure as a time-out: for it only the response and all later transactions are compared, the rest of the current transaction may be missing".into(),
+            "a JoinAccept whose MHDR carries a Major version other than LoRaWAN R1 (bits 1..0 = 0) is not a frame of this protocol version and counts as rejected, also when its MIC verifies over the MHDR as sent".into(),
             "a frame whose DevAddr is not the session's is addressed to someone else and counts as rejected, also when its MIC would verify under this session's key; a frame with an uplink MType is not a downlink and counts as rejected".into(),
         ]
     }
@@ -30,7 +31,7 @@ impl Monitor for C07 {
         if tier == Tier::Sanitizer {
             vec!["twins_compared"]
         } else {
-            vec!["twins_compared", "inserted_random", "inserted_bitflip", "inserted_replay", "inserted_other_session", "inserted_other_addr", "inserted_oversize", "inserted_reflected_uplink", "inserted_classc", "pending_sticky", "pending_ack", "pending_adr", "join_twins_compared", "nb_noupdate_seen"]
+            vec!["twins_compared", "inserted_random", "inserted_bitflip", "inserted_replay", "inserted_other_session", "inserted_other_addr", "inserted_oversize", "inserted_reflected_uplink", "inserted_classc", "pending_sticky", "pending_ack", "pending_adr", "join_twins_compared", "rejoin_after_earlier_session", "nb_noupdate_seen"]
         }
     }
 
@@ -484,6 +485,29 @@ fn join_twins(front: Front, reg: Reg, rng: &mut Prng, col: &mut Collector) {
     let mut b: Dev = Dev::new(front, reg, creds.clone(), &opts);
     let ja = JoinAcceptDesc { join_nonce: rng.below(1 << 24) as u32, net_id: 3, dev_addr: rng.next_u32(), dl_settings: 0, rx_delay: rng.range(0, 5) as u8, cf_list: None };
     let good = encode_join_accept(&creds.app_key, &ja);
+    // half of the twins have an earlier life: a first session in which the network moved RX2, the RX1
+    // offset and the RX1 delay; whatever that session left behind must not become visible through a
+    // rejected frame of the re-join either
+    if rng.bool() {
+        let ja0 = JoinAcceptDesc { join_nonce: rng.below(1 << 24) as u32, net_id: 3, dev_addr: rng.next_u32(), dl_settings: 0, rx_delay: rng.range(0, 4) as u8, cf_list: None };
+        let w0 = encode_join_accept(&creds.app_key, &ja0);
+        let r0a = a.transact(Action::Join, &Script::rx1(w0.clone()));
+        let r0b = b.transact(Action::Join, &Script::rx1(w0));
+        if let (Resp::JoinSuccess, Resp::JoinSuccess, Some((nwk, app, addr))) = (&r0a, &r0b, a.session_keys()) {
+            let net0 = Net { nwk, app, addr };
+            let (lo, hi) = reg.inner_band();
+            let f = lo + rng.below(((hi - lo) / 100) as u64) as u32 * 100;
+            let mut cmds = rx_param_setup_req((rng.below(3) as u8) << 4 | reg.rx2_default().1, f / 100);
+            cmds.extend(rx_timing_setup_req(rng.range(1, 6) as u8));
+            let fr = net0.mac_downlink(0, &cmds, true);
+            for _ in 0..2 {
+                let sc = Script::rx1(fr.clone());
+                a.transact(Action::Send { data: &[9], port: 9, confirmed: false }, &sc);
+                b.transact(Action::Send { data: &[9], port: 9, confirmed: false }, &sc);
+            }
+            col.event("rejoin_after_earlier_session");
+        }
+    }
     let attempts = rng.range(1, 3);
     let mut kinds = vec![];
     for att in 0..=attempts {
@@ -491,8 +515,11 @@ fn join_twins(front: Front, reg: Reg, rng: &mut Prng, col: &mut Collector) {
         let mut sa = Script::silent();
         let mut sb = Script::silent();
         // rejected JoinAccept variants for B
-        let kind = rng.below(5);
+        let kind = rng.below(6);
         let bad: Vec<u8> = match kind {
+            // authentic in every respect but the Major version bits of its MHDR (the MIC covers the
+            // MHDR as sent): not a LoRaWAN R1 frame, to be ignored
+            5 => encode_join_accept_mhdr(&creds.app_key, &ja, 0x20 | rng.range(1, 4) as u8),
             0 => {
                 let mut k2 = creds.app_key;
                 k2[rng.below(16) as usize] ^= 1 << rng.below(8);
